@@ -46,19 +46,7 @@ def closure_ret(p, clo):
     return flow.simplify_term(flow.Terms(p, cb).place(0, (), r[0], "t")) if len(r) == 1 else None
 
 
-def presence_selection(t, pred):
-    """for a selection γ(test){..} whose test is a presence test of a value satisfying pred:
-    ({True: value when present, False: value when absent}, the tested value)"""
-    sel, subj = {}, None
-    if isinstance(t, tuple) and t and t[0] == "gamma":
-        for l, v in t[2]:
-            r = flow.presence_test(t[1], l)
-            if r is not None and r[1] is not None:
-                s = [x for x in flow._subjects(r[0], True) if pred(x)]
-                if s:
-                    sel[r[1]] = v
-                    subj = s[0]
-    return sel, subj
+presence_selection = flow.presence_selection
 
 
 def run(chk):
